@@ -288,6 +288,8 @@ def _dealloc_sites(fn, fieldname, array_field=False):
 def ownfield(run, fx):
     owned = discover_owned(fx)
     for (cls, f), why in MANUAL_OWNED.items():
+        if f == 'm_pFileFace' and 'FileFace.cpp' not in fx.raw['units']:
+            continue            # GRAPHITE2_NFILEFACE: neither created nor deleted
         owned.setdefault(cls + '::' + f, set()).add('(manual row: %s)' % why)
     n = 0
     for field in sorted(owned):
